@@ -258,6 +258,25 @@ def run_uc_pow(acc, nt):
                 check_result(acc, "container", "pow", nt, r2, m_pow(mu, a * b), case2)
                 check_result(acc, "container", "pow", nt, r3, m_pow(mu, a * b), case2)
             acc.outcome("pow0" if a == 0 else "pow")
+    # exact rational powers that no binary float represents (1/10, 3/10, 1/3, 7/10) applied to a default container with
+    # integer exponents (m**Fraction(1, 10)): the container keeps the Fraction it is given, so the power laws stay exact
+    if nt == "float":
+        from pint.util import UnitsContainer as _UC
+
+        for mu in models[:: max(1, len(models) // 40)]:
+            if not mu:
+                continue
+            for a in (Fraction(1, 10), Fraction(3, 10), Fraction(1, 3), Fraction(7, 10), Fraction(-1, 10)):
+                u = _UC({k: int(v) for k, v in mu.items()})
+                acc.ev(2)
+                acc.nt(("pow-rational", key_of(mu), str(a)))
+                case = {"layer": "container", "nt": "default container, integer exponents", "u": jm(mu), "a": str(a), "op": "(u**a)**3 vs u**(3a); u**a * u**a * u**a * u**(-3a)"}
+                r1, r2 = (u**a) ** 3, u ** (a * 3)
+                if r1 != r2 or hash(r1) != hash(r2) or dict(r1) != dict(r2):
+                    acc.violation(["container", "pow", "rational-power-law-inexact", nt], case, {k: str(v) for k, v in dict(r2).items()}, {k: str(v) for k, v in dict(r1).items()})
+                r3 = (u**a) * (u**a) * (u**a) * (u ** (-3 * a))
+                if dict(r3) != {}:
+                    acc.violation(["container", "pow", "rational-powers-do-not-cancel", nt], case, {}, {k: str(v) for k, v in dict(r3).items()})
     acc.sample({"layer": "container", "nt": nt, "u": jm(models[9]), "a": "1/2", "b": "2", "ops": ["(u**a)**b", "u**(a*b)"]})
 
 
